@@ -56,8 +56,9 @@ def work(job):
 
 
 def main():
-    a = [x for x in sys.argv[1:] if x != '-v']
+    a = [x for x in sys.argv[1:] if x not in ('-v', '--update-meta')]
     verbose = '-v' in sys.argv
+    update = '--update-meta' in sys.argv
     which = a[0] if a and a[0] in ('benign', 'seeded', 'all') else 'all'
     prefixes = [x for x in a if x not in ('benign', 'seeded', 'all')]
     jobs = []
@@ -78,6 +79,17 @@ def main():
             continue
         st = stats[kind]
         st[0] += 1
+        if update:
+            mp = os.path.join(VERIF, kind, name, 'meta.json')
+            if kind == 'benign':
+                meta['false_alarms'], meta['undecided'] = fired, und
+                meta['details'] = det
+            else:
+                meta['checks_fired'], meta['checks_undecided'] = fired, und
+                meta['caught_by_own_property'] = prop in fired
+                meta['violations_reported'] = [l for l in det.get(prop, []) if 'VIOLATED' in l or 'reason:' in l][:6]
+            with open(mp, 'w') as f:
+                json.dump(meta, f, indent=1)
         if kind == 'benign':
             ok = not fired and not und
             st[1] += bool(fired); st[2] += bool(und and not fired); st[3] += ok
